@@ -1,4 +1,5 @@
 import PlaybackProofs.RecorderTable
+import PlaybackProofs.ThreadsReplay
 /-!
 # C01 — Replay on unchanged code reproduces the recorded run
 
@@ -95,5 +96,82 @@ example : exProg.Faithful (fun _ => .value (.atom "1")) ∧ exProg.NoPlayData :=
       exact ⟨rfl, rfl⟩
   refine ⟨⟨hnode _, trivial, fun _ => ⟨hnode _, trivial, fun _ => ⟨trivial, trivial, fun _ => trivial⟩⟩⟩, ?_⟩
   intro _ _ _; trivial
+
+/-! ## Worker threads inside the operation
+
+The intercepted calls of the operation are made by threads (`prog t` is the straight-line program of thread `t`; thread
+numbers are arbitrary, all but finitely many programs are empty), one atomic recorder step per call, under an ARBITRARY
+schedule while recording and another ARBITRARY schedule while replaying.  Inputs are functions of their key (`w`); every
+output alias is owned by the thread that uses it.  Not covered: two threads that may run concurrently sending on one
+alias (the ordinal `_invoke_counter[alias] += 1` then depends on the schedule and the operation itself is not
+deterministic); a thread that sends on an alias strictly before it starts / after it joins the thread owning it is
+deterministic and is exercised by the correspondence check only. -/
+section Threads
+open PlaybackModel.ThreadsReplay
+
+/-- The record run is schedule-independent: whatever the interleaving, once every thread has made its calls each call
+was handed what its body produced, and the recording holds, under the per-alias ordinals, exactly what each thread sent. -/
+theorem C01_threads_record_schedule_independent (w : String → String) (prog : Nat → List TCall) (sched : List Nat)
+    (hc : Complete prog (runRecord w prog sched)) :
+    (∀ t, ((runRecord w prog sched).seen t).reverse = specSeen w (prog t)) ∧
+    (∀ t a n, PlaybackModel.ThreadsReplay.get (runRecord w prog sched).data (.outArgs t a n) =
+      if 1 ≤ n ∧ n ≤ ordOf (prog t) a then (nthOut (prog t) a n).map (·.arg) else none) := by
+  have h := recInv_run w prog sched
+  refine ⟨fun t => ?_, fun t a n => ?_⟩
+  · rw [h.seen_eq t, hc t, List.take_length, List.reverse_reverse]
+  · rw [h.args_eq t a n, h.cnt_eq t a, hc t, List.take_length]
+
+/-- **Replay with worker threads is faithful under every pair of interleavings**: record under schedule `s1`, replay the
+recorded data under schedule `s2`; every call of every thread is handed, during replay, exactly what it was handed while
+recording (same values, same order within the thread), and the outputs captured during replay are the recorded outputs
+entry by entry. -/
+theorem C01_threads_replay_faithful (w : String → String) (prog : Nat → List TCall) (s1 s2 : List Nat)
+    (hc1 : Complete prog (runRecord w prog s1))
+    (hc2 : Complete prog (runReplay (PlaybackModel.ThreadsReplay.get (runRecord w prog s1).data) prog s2)) :
+    (∀ t, (runReplay (PlaybackModel.ThreadsReplay.get (runRecord w prog s1).data) prog s2).seen t = (runRecord w prog s1).seen t) ∧
+    (∀ t a n, PlaybackModel.ThreadsReplay.get (runReplay (PlaybackModel.ThreadsReplay.get (runRecord w prog s1).data) prog s2).pb (.outArgs t a n)
+              = PlaybackModel.ThreadsReplay.get (runRecord w prog s1).data (.outArgs t a n)) := by
+  have h1 := recInv_run w prog s1
+  have hR := holds_of_complete w prog _ h1 hc1
+  have h2 := repInv_run w prog _ hR s2
+  refine ⟨fun t => ?_, fun t a n => ?_⟩
+  · rw [h2.seen_eq t, h1.seen_eq t, hc1 t, hc2 t]
+  · rw [h2.pb_eq t a n, h1.args_eq t a n, h2.cnt_eq t a, h1.cnt_eq t a, hc1 t, hc2 t]
+
+/-- … and no replayed call ever hits a missing key. -/
+theorem C01_threads_no_missing_key (w : String → String) (prog : Nat → List TCall) (s1 s2 : List Nat)
+    (hc1 : Complete prog (runRecord w prog s1))
+    (hw : ∀ k, w k ≠ missing) (hres : ∀ t c, c ∈ prog t → c.res ≠ missing) :
+    ∀ t, missing ∉ (runReplay (PlaybackModel.ThreadsReplay.get (runRecord w prog s1).data) prog s2).seen t := by
+  intro t hm
+  have h1 := recInv_run w prog s1
+  have hR := holds_of_complete w prog _ h1 hc1
+  have h2 := repInv_run w prog _ hR s2
+  rw [h2.seen_eq t, List.mem_reverse] at hm
+  simp only [specSeen, List.mem_map] at hm
+  obtain ⟨c, hcm, hce⟩ := hm
+  have hcm' : c ∈ prog t := List.mem_of_mem_take hcm
+  by_cases hin : c.isIn = true
+  · simp [hin] at hce; exact hw _ hce
+  · simp [hin] at hce; exact hres t c hcm' hce
+
+/-! Non-vacuity: two workers (an input and an output each, the input key shared) and the main thread, recorded under one
+interleaving and replayed under another; both runs complete. -/
+def exThreads : Nat → List TCall
+  | 0 => [⟨true, "in k1", "", ""⟩, ⟨false, "out0", "a", "r0"⟩]
+  | 1 => [⟨false, "out1", "b", "r1"⟩, ⟨true, "in k1", "", ""⟩, ⟨false, "out1", "c", "r2"⟩]
+  | _ => []
+
+example : (∀ t, (runRecord (fun k => "v:" ++ k) exThreads [0, 1, 1, 0, 1, 2]).pc t = (exThreads t).length) := by
+  intro t
+  match t with
+  | 0 => rfl
+  | 1 => rfl
+  | (n + 2) => rfl
+
+example : (runReplay (PlaybackModel.ThreadsReplay.get (runRecord (fun k => "v:" ++ k) exThreads [0, 1, 1, 0, 1, 2]).data)
+    exThreads [1, 1, 1, 0, 0]).seen 1 = ["r2", "v:in k1", "r1"] := by decide
+
+end Threads
 
 end Properties.C01
